@@ -235,6 +235,17 @@ def main() -> int:
     w.nat("BAT_ENTRY_SIZE", ent.size)
     w.end("vhd")
 
+    # ---------------- HDD / HDS
+    from dissect.hypervisor.disk import c_hdd as m_hdd
+    w.ns("hdd")
+    w.struct("pvd_header", m_hdd.c_hdd.pvd_header,
+             ["m_Sig", "m_Sectors", "m_Size", "m_SizeInSectors_v1", "m_SizeInSectors_v2", "m_DiskInUse", "m_FirstBlockOffset"])
+    w.bytes("SIGNATURE_STRUCTURED_DISK_V1", m_hdd.c_hdd.SIGNATURE_STRUCTURED_DISK_V1)
+    w.bytes("SIGNATURE_STRUCTURED_DISK_V2", m_hdd.c_hdd.SIGNATURE_STRUCTURED_DISK_V2)
+    w.nat("SECTOR_SIZE", get(m_hdd, "SECTOR_SIZE"))
+    w.nat("uint32_size", len(m_hdd.c_hdd.uint32))
+    w.end("hdd")
+
     extra = HERE / "extract_more.py"
     if extra.exists():
         ns = {}
